@@ -1318,3 +1318,26 @@ package geom
 //@   requires [members] forall k int :: 0 <= k && k < len(gc) ==> typeof(gc[k]) != nil && nonNilBounds(gc[k])
 //@   ensures [iterator] result != nil
 //@   modifies nothing
+
+//@ func (gc GeometryCollection) Bounds
+//@   prop C04
+//@   mode xreal
+//@   requires [members] forall k int :: 0 <= k && k < len(gc) ==> typeof(gc[k]) != nil && nonNilBounds(gc[k])
+//@   ensures [fresh_box] result != nil && fresh(result)
+//@   modifies nothing
+//@   loop 1 `for _, geom := range gc`
+//@     invariant b != nil && fresh(b) && #1 <= len(gc)
+
+//@ func (p Polygon) Within
+//@   prop C02
+//@   mode xreal
+//@   requires [nonnil] poly != nil
+//@   requires [recv] typeof(poly) == *Bounds ==> poly.(*Bounds) != nil
+//@   ensures [inside_means_no_vertex_outside] typeof(poly) == Polygon && result == Inside ==> (forall a int :: 0 <= a && a < len(p) ==> !anyOutP(p[a], poly.(Polygon), len(p[a])))
+//@   ensures [inside_means_no_vertex_outside_multi] typeof(poly) == MultiPolygon && result == Inside ==> (forall a int :: 0 <= a && a < len(p) ==> !anyOutM(p[a], poly.(MultiPolygon), len(p[a])))
+//@   ensures [status] result == Outside || result == Inside || result == OnEdge
+//@   modifies nothing
+//@   loop 1 `for _, r := range p`
+//@     invariant [rings] #1 <= len(p) && (typeof(poly) == Polygon ==> (forall a int :: 0 <= a && a < #1 ==> !anyOutP(p[a], poly.(Polygon), len(p[a])))) && (typeof(poly) == MultiPolygon ==> (forall a int :: 0 <= a && a < #1 ==> !anyOutM(p[a], poly.(MultiPolygon), len(p[a]))))
+//@   loop 2 `for _, pt := range r`
+//@     invariant [vertices] #1 < len(p) && #2 <= len(r) && r == p[#1] && (typeof(poly) == Polygon ==> !anyOutP(r, poly.(Polygon), #2) && (forall a int :: 0 <= a && a < #1 ==> !anyOutP(p[a], poly.(Polygon), len(p[a])))) && (typeof(poly) == MultiPolygon ==> !anyOutM(r, poly.(MultiPolygon), #2) && (forall a int :: 0 <= a && a < #1 ==> !anyOutM(p[a], poly.(MultiPolygon), len(p[a]))))
